@@ -630,7 +630,7 @@ func TestC18(t *testing.T) {
 			"addIndex": func(rt *rapid.T) {
 				ci, tn := pick(rt)
 				t := ws[ci].m.Tables[tn]
-				ix := model.IndexSchema{Name: rapid.SampledFrom([]string{"late1", "late2", "idx1"}).Draw(rt, "ixName"), Global: true,
+				ix := model.IndexSchema{Name: rapid.SampledFrom([]string{"late1", "Late2", "idx1", "ByShape", "by-color"}).Draw(rt, "ixName") /* names whose order depends on letter case */, Global: true,
 					Hash: rapid.SampledFrom([]string{"g1", "g2", "r1"}).Draw(rt, "ixHash")}
 				attrs := map[string]string{ix.Hash: "S"}
 				if rapid.IntRange(0, 2).Draw(rt, "ixWithRange") == 1 {
@@ -686,7 +686,20 @@ func TestC18(t *testing.T) {
 			},
 			"delIndex": func(rt *rapid.T) {
 				ci, tn := pick(rt)
-				res, status := step(ci, model.Op{Kind: "DeleteIndex", Table: tn, Index: rapid.SampledFrom([]string{"late1", "late2", "idx1", "idx2", "nosuch"}).Draw(rt, "delIx")})
+				name := rapid.SampledFrom([]string{"late1", "Late2", "idx1", "ByShape", "by-color", "idx2", "nosuch", "late2"}).Draw(rt, "delIx")
+				if t := ws[ci].m.Tables[tn]; t != nil {
+					// mostly an index that exists
+					var globals []string
+					for _, ix := range t.Schema.Indexes {
+						if ix.Global {
+							globals = append(globals, ix.Name)
+						}
+					}
+					if len(globals) > 0 && rapid.IntRange(0, 2).Draw(rt, "delExistingIx") > 0 {
+						name = rapid.SampledFrom(globals).Draw(rt, "delIxExisting")
+					}
+				}
+				res, status := step(ci, model.Op{Kind: "DeleteIndex", Table: tn, Index: name})
 				if status == stepDone && res.Err == "" && gens[ci][tn] != nil {
 					gens[ci][tn].s = ws[ci].m.Tables[tn].Schema
 				}
